@@ -339,3 +339,241 @@ Proof.
   destruct (opt_prefix (opt_char 32 r1)) as [k r3]. destruct (opt_char 66 r3); reflexivity.
 Qed.
 
+(* M4 *)
+Theorem humansize_parse_exact_proof s :
+  bytes_ok s -> no_nul s ->
+  map_res result_of (humansize_parse_repo (cstr s)) = Ok (hs_parse_spec s).
+Proof.
+  intros Hb Hn. rewrite repo_parse_is_std. unfold parse_std, humansize_parse_m.
+  destruct s as [|c0 s0] eqn:Es; [vm_compute; reflexivity|]. rewrite <- Es in *.
+  assert (s <> []) as Hne by (rewrite Es; discriminate).
+  pose proof (hp_loop_run s [] (S (length (cstr s))) (mk 0 0 1) Hn Hne) as Hl.
+  cbn [app length] in Hl. unfold mk in Hl. rewrite Hl by (unfold cstr; rewrite app_length; simpl; lia).
+  clear Hl. cbn [bind map_res]. f_equal.
+  fold (mk 0 0 1). fold (finish (run s (mk 0 0 1))).
+  rewrite spec_unfold. pose proof (span_digits_spec s) as Hsp.
+  destruct (span_digits s) as [ds r1]. destruct Hsp as (Esplit & Hds & Hr1).
+  assert (0 <= 0 <= U64MAX) as Hz0 by (unfold U64MAX; lia).
+  destruct ds as [|d ds'].
+  - (* no leading digit *)
+    cbn [app] in Esplit. subst r1. rewrite Es in Hr1, Hb. rewrite Es.
+    destruct (bytes_ok_cons _ _ Hb) as [Hc _].
+    rewrite (finish_agrees _ 0 None Hz0); [reflexivity | | discriminate].
+    cbn [agrees]. unfold run. cbn [fold_left]. fold (run s0 (stepS c0 (mk 0 0 1))).
+    rewrite run_absorb by (apply step0_nondigit; assumption). apply step0_nondigit; assumption.
+  - pose proof (Forall_inv Hds) as Hd. cbv beta in Hd.
+    assert (bytes_ok ((d :: ds') ++ r1)) as Hb' by (rewrite <- Esplit; exact Hb).
+    destruct (bytes_ok_cons d (ds' ++ r1)) as [Hd256 _]; [exact Hb'|].
+    assert (run s (mk 0 0 1) = run ((d :: ds') ++ r1) (mk 1 0 1)) as ->.
+    { rewrite Esplit. unfold run. cbn [app fold_left]. rewrite (step0_digit d Hd256 Hd). reflexivity. }
+    destruct (run_digits (d :: ds') r1 0 Hb' Hds Hz0) as [R1 R2].
+    change (acc_value 0 (d :: ds')) with (dec_value (d :: ds')) in R1, R2.
+    assert (0 <= dec_value (d :: ds')) as Hpos by (apply (acc_value_mono (d :: ds') 0); [lia | exact Hds]).
+    destruct (Z_le_gt_dec (dec_value (d :: ds')) U64MAX) as [L|G].
+    + rewrite (R1 L).
+      destruct (bytes_ok_app _ _ Hb') as [_ Hbr].
+      rewrite (finish_agrees _ (dec_value (d :: ds')) (suffix r1)); [reflexivity | lia | | apply suffix_nonneg].
+      apply run1_suffix; assumption.
+    + rewrite (finish_agrees _ 0 None Hz0); [| exact (R2 G) | discriminate].
+      destruct (suffix r1) as [k|] eqn:Ek; [|reflexivity].
+      pose proof (suffix_nonneg r1 k Ek) as Hk. pose proof (Z.pow_pos_nonneg 1000 k ltac:(lia) Hk) as Hp.
+      change (2 ^ 64) with 18446744073709551616. unfold U64MAX in G.
+      destruct (Z.ltb_spec (dec_value (d :: ds') * 1000 ^ k) 18446744073709551616); [nia | reflexivity].
+Qed.
+
+Lemma hs_parse_spec_range s v : hs_parse_spec s = Some v -> 0 <= v < 2 ^ 64.
+Proof.
+  rewrite spec_unfold. pose proof (span_digits_spec s) as Hsp.
+  destruct (span_digits s) as [ds r1]. destruct Hsp as (_ & Hds & _).
+  destruct ds as [|d ds']; [discriminate|].
+  destruct (suffix r1) as [k|] eqn:Ek; [|discriminate].
+  destruct (Z.ltb_spec (dec_value (d :: ds') * 1000 ^ k) (2 ^ 64)) as [L|L]; [|discriminate].
+  intros E. inversion E; subst v. split; [|exact L].
+  pose proof (acc_value_mono (d :: ds') 0 ltac:(lia) Hds) as Hpos.
+  change (acc_value 0 (d :: ds')) with (dec_value (d :: ds')) in Hpos.
+  pose proof (Z.pow_pos_nonneg 1000 k ltac:(lia) (suffix_nonneg r1 k Ek)). nia.
+Qed.
+
+(* C15: humansize_parse reads only the bytes of its string (the result is an Ok: no read outside the
+   terminated string), returns 0 or -1, and the size it reports on success is a 64-bit value *)
+Theorem humansize_parse_safe_proof s :
+  bytes_ok s -> no_nul s ->
+  exists rc size, humansize_parse_repo (cstr s) = Ok (rc, size) /\ (rc = 0 \/ rc = -1) /\
+                  (rc = 0 -> 0 <= size < 2 ^ 64).
+Proof.
+  intros Hb Hn. pose proof (humansize_parse_exact_proof s Hb Hn) as E.
+  destruct (humansize_parse_repo (cstr s)) as [[rc size]| | |] eqn:R; try discriminate.
+  exists rc, size. split; [reflexivity|].
+  assert (rc = 0 \/ rc = -1) as Hrc.
+  { rewrite repo_parse_is_std in R. unfold parse_std, humansize_parse_m in R.
+    destruct (hp_loop 10 10 48 57 1000 32 66 cases6 (S (length (cstr s))) (cstr s) 0
+                      {| hp_state := 0; hp_size := 0; hp_mult := 1 |}); try discriminate.
+    cbn [bind] in R. inversion R.
+    match goal with |- (if ?b then _ else _) = 0 \/ _ => destruct b end; auto. }
+  split; [exact Hrc|]. intros H0. subst rc. cbn [map_res] in E. inversion E as [E'].
+  unfold result_of in E'. cbn [fst snd] in E'. change (0 =? -1) with false in E'. cbv iota in E'.
+  symmetry in E'. exact (hs_parse_spec_range s size E').
+Qed.
+
+(* non-vacuity *)
+Example parse_examples :
+  bytes_ok [49; 50; 32; 107; 66]%N /\ no_nul [49; 50; 32; 107; 66]%N /\
+  humansize_parse_repo (cstr [49; 50; 32; 107; 66]%N) = Ok (0, 12000) /\                (* "12 kB" *)
+  humansize_parse_repo (cstr [49; 50; 32; 32; 66]%N) = Ok (-1, 12) /\                    (* "12  B" *)
+  fst (match humansize_parse_repo (cstr [49; 57; 32; 69]%N) with Ok r => r | _ => (0, 0) end) = -1. (* "19 E" *)
+Proof.
+  unfold bytes_ok, no_nul, is_byte.
+  repeat split; try (vm_compute; reflexivity); repeat constructor; try lia; discriminate.
+Qed.
+
+(* ================= humansize (M5) ================= *)
+Definition prefixes_std : list N := [32; 107; 77; 71; 84; 80; 69; 0]%N.
+Definition fmt_small_std : list N := [37; 100; 32; 66]%N.                              (* "%d B" *)
+Definition fmt_frac_std : list N := [37; 100; 46; 37; 100; 32; 37; 99; 66]%N.          (* "%d.%d %cB" *)
+Definition fmt_int_std : list N := [37; 100; 32; 37; 99; 66]%N.                        (* "%d %cB" *)
+Definition format_std : Z -> res (list N) :=
+  humansize_m 1000 100 1 10000 1000 100 10 10 10 prefixes_std fmt_small_std fmt_frac_std fmt_int_std.
+
+Lemma repo_format_is_std : humansize_repo = format_std.
+Proof. reflexivity. Qed.
+
+(* ---- the printf fragment on the three format strings ---- *)
+Lemma fmt_small_run z : fmt_run fmt_small_std [AInt z] = Ok (print_d z ++ [32; 66]%N).
+Proof. unfold fmt_small_std. cbn [fmt_run bind N.eqb Pos.eqb]. rewrite app_nil_r || idtac. reflexivity. Qed.
+
+Lemma fmt_frac_run a b c :
+  fmt_run fmt_frac_std [AInt a; AInt b; AChar c] = Ok (print_d a ++ 46%N :: print_d b ++ [32%N; c; 66%N]).
+Proof. unfold fmt_frac_std. cbn [fmt_run bind N.eqb Pos.eqb]. reflexivity. Qed.
+
+Lemma fmt_int_run a c :
+  fmt_run fmt_int_std [AInt a; AChar c] = Ok (print_d a ++ [32%N; c; 66%N]).
+Proof. unfold fmt_int_std. cbn [fmt_run bind N.eqb Pos.eqb]. reflexivity. Qed.
+
+(* %d on the numbers that are printed (all below 1000) is the plain decimal rendering *)
+Definition listN_eqb (a b : list N) : bool := if list_eq_dec N.eq_dec a b then true else false.
+Lemma print_d_small v : 0 <= v < 1000 -> print_d v = dec3 v.
+Proof.
+  intros H.
+  assert (forallb (fun x => listN_eqb (print_d (Z.of_N x)) (dec3 (Z.of_N x))) (N_range 1000) = true) as S
+      by (vm_compute; reflexivity).
+  pose proof (sweep_N _ 1000 S (Z.to_N v) ltac:(lia)) as P. cbv beta in P.
+  rewrite Z2N.id in P by lia. unfold listN_eqb in P.
+  destruct (list_eq_dec N.eq_dec (print_d v) (dec3 v)); [assumption|discriminate].
+Qed.
+Lemma dec3_digit v : 0 <= v <= 9 -> dec3 v = [dchar v].
+Proof. intros H. unfold dec3. destruct (Z.ltb_spec v 10); [reflexivity|lia]. Qed.
+
+Lemma to_int_small v : 0 <= v < 2147483648 -> to_int v = v.
+Proof. intros H. unfold to_int. Z.div_mod_to_equations. lia. Qed.
+
+(* ---- the /1000 loop ---- *)
+Lemma hs_loop_spec fuel : forall size cnt,
+  0 <= size < 10 * 1000 ^ Z.of_nat fuel ->
+  exists j, 0 <= j /\
+    hs_loop 10000 1000 fuel size cnt = Ok (size / 1000 ^ j, cnt + j) /\
+    size / 1000 ^ j < 10000 /\ (0 < j -> 10 <= size / 1000 ^ j).
+Proof.
+  induction fuel as [|f IH]; intros size cnt H.
+  - simpl in H. lia.
+  - cbn [hs_loop]. destruct (Z.geb_spec size 10000) as [G|G].
+    + assert (0 <= size / 1000 < 10 * 1000 ^ Z.of_nat f) as H'.
+      { rewrite Nat2Z.inj_succ, Z.pow_succ_r in H by lia.
+        split; [apply Z.div_pos; lia|]. apply Z.div_lt_upper_bound; lia. }
+      destruct (IH (size / 1000) (cnt + 1) H') as (j & Hj & E & B1 & B2).
+      exists (j + 1).
+      assert (size / 1000 / 1000 ^ j = size / 1000 ^ (j + 1)) as D.
+      { rewrite Z.div_div by (try lia; apply Z.pow_pos_nonneg; lia).
+        rewrite Z.pow_add_r by lia. rewrite (Z.mul_comm (1000 ^ j)). reflexivity. }
+      rewrite D in *. split; [lia|]. split; [rewrite E; f_equal; f_equal; lia|]. split; [exact B1|].
+      intros _. destruct (Z.eq_dec j 0) as [->|Hnz]; [|apply B2; lia].
+      change (1000 ^ (0 + 1)) with 1000. apply Z.div_le_lower_bound; lia.
+    + exists 0. change (1000 ^ 0) with 1. rewrite Z.div_1_r, Z.add_0_r.
+      split; [lia|]. split; [reflexivity|]. split; [lia|]. intros; lia.
+Qed.
+
+(* M5 *)
+Theorem humansize_greatest_proof n :
+  0 <= n < 2 ^ 64 ->
+  exists f, valid_form f /\ humansize_repo n = Ok (render f) /\
+            form_value f <= n /\
+            forall v, representable v -> v <= n -> v <= form_value f.
+Proof.
+  intros Hn. change (2 ^ 64) with 18446744073709551616 in Hn.
+  rewrite repo_format_is_std. unfold format_std, humansize_m.
+  destruct (Z.ltb_spec n 1000) as [Small|Big].
+  - (* "<N> B" *)
+    exists (FSmall n). split; [cbn; lia|]. split.
+    { rewrite to_int_small by lia. rewrite fmt_small_run, print_d_small by lia. reflexivity. }
+    split; [cbn; lia|]. intros v _ Hv. cbn. exact Hv.
+  - assert (0 <= n / 100 < 10 * 1000 ^ Z.of_nat 70) as Hs.
+    { split; [apply Z.div_pos; lia|]. apply Z.div_lt_upper_bound; [lia|].
+      assert (18446744073709551616 <= 100 * (10 * 1000 ^ Z.of_nat 70)) by (vm_compute; discriminate). lia. }
+    destruct (hs_loop_spec 70 (n / 100) 1 Hs) as (j & Hj & El & B1 & B2).
+    rewrite El. cbn [bind].
+    (* at most five divisions by 1000 *)
+    assert (j <= 5) as Hj5.
+    { destruct (Z_le_gt_dec j 5) as [|G]; [assumption|]. exfalso.
+      assert (1000 ^ 6 <= 1000 ^ j) as P by (apply Z.pow_le_mono_r; lia).
+      change (1000 ^ 6) with 1000000000000000000 in P.
+      assert (n / 100 / 1000 ^ j = 0) as Z0 by (apply Z.div_small; split; [apply Z.div_pos; lia|];
+        apply Z.lt_le_trans with 1000000000000000000; [apply Z.div_lt_upper_bound; lia | exact P]).
+      specialize (B2 ltac:(lia)). lia. }
+    assert (n / 100 / 1000 ^ j = n / (100 * 1000 ^ j)) as Ediv
+      by (rewrite Z.div_div by (try lia; apply Z.pow_pos_nonneg; lia); reflexivity).
+    rewrite Ediv in *. clear Ediv El Hs.
+    set (sz := n / (100 * 1000 ^ j)) in *.
+    assert (10 <= sz) as Hsz10.
+    { destruct (Z.eq_dec j 0) as [->|Hnz]; [|apply B2; lia].
+      subst sz. change (100 * 1000 ^ 0) with 100. apply Z.div_le_lower_bound; lia. }
+    assert (sz * (100 * 1000 ^ j) <= n < (sz + 1) * (100 * 1000 ^ j)) as Hn'.
+    { assert (0 < 100 * 1000 ^ j) as Up by (pose proof (Z.pow_pos_nonneg 1000 j ltac:(lia) Hj); lia).
+      pose proof (Z.mul_div_le n _ Up). pose proof (Z.mul_succ_div_gt n _ Up).
+      fold sz in H, H0. unfold Z.succ in H0. lia. }
+    clearbody sz. rewrite (to_int_small sz) by lia.
+    rewrite Z.quot_div_nonneg, Z.rem_mod_nonneg by lia.
+    destruct (1 + j <? 0) eqn:Eneg; [apply Z.ltb_lt in Eneg; lia|]. clear Eneg.
+    assert (j = 0 \/ j = 1 \/ j = 2 \/ j = 3 \/ j = 4 \/ j = 5) as Hcases by lia.
+    destruct (Z.ltb_spec sz 100) as [Frac|Int].
+    + (* "<a>.<b> <prefix>B" *)
+      exists (FDec (sz / 10) (sz mod 10) (1 + j)).
+      assert (1 <= sz / 10 <= 9 /\ 0 <= sz mod 10 <= 9) as Hd by (Z.div_mod_to_equations; lia).
+      split; [cbn; lia|]. split.
+      { destruct Hcases as [-> | [-> | [-> | [-> | [-> | ->]]]]]; cbn [Z.add Pos.add Z.to_nat Pos.to_nat Pos.iter_op Nat.add];
+          (change (rd prefixes_std _) with (@Ok N (prefix_char _)) || idtac);
+          cbn [rd nth_error prefixes_std bind];
+          rewrite fmt_frac_run, !print_d_small, !dec3_digit by lia; reflexivity. }
+      assert (form_value (FDec (sz / 10) (sz mod 10) (1 + j)) = sz * (100 * 1000 ^ j)) as Ev.
+      { cbn [form_value]. replace (1 + j - 1) with j by lia.
+        replace (10 * (sz / 10) + sz mod 10) with sz by (Z.div_mod_to_equations; lia). ring. }
+      rewrite Ev. split; [lia|].
+      intros v (f' & Vf & <-) Hv.
+      destruct f' as [m | x k' | a b k']; cbn [valid_form form_value] in *.
+      * destruct Hcases as [-> | [-> | [-> | [-> | [-> | ->]]]]]; cbn in *; lia.
+      * assert (k' = 1 \/ k' = 2 \/ k' = 3 \/ k' = 4 \/ k' = 5 \/ k' = 6) as Hk by lia.
+        destruct Hcases as [-> | [-> | [-> | [-> | [-> | ->]]]]];
+          destruct Hk as [-> | [-> | [-> | [-> | [-> | ->]]]]]; cbn in *; lia.
+      * assert (k' = 1 \/ k' = 2 \/ k' = 3 \/ k' = 4 \/ k' = 5 \/ k' = 6) as Hk by lia.
+        destruct Hcases as [-> | [-> | [-> | [-> | [-> | ->]]]]];
+          destruct Hk as [-> | [-> | [-> | [-> | [-> | ->]]]]]; cbn in *; lia.
+    + (* "<X> <prefix>B" *)
+      exists (FInt (sz / 10) (1 + j)).
+      assert (10 <= sz / 10 <= 999) as Hd by (Z.div_mod_to_equations; lia).
+      split; [cbn; lia|]. split.
+      { destruct Hcases as [-> | [-> | [-> | [-> | [-> | ->]]]]];
+          cbn [rd nth_error prefixes_std bind Z.add Pos.add Z.to_nat Pos.to_nat Pos.iter_op Nat.add];
+          rewrite fmt_int_run, print_d_small by lia; reflexivity. }
+      assert (form_value (FInt (sz / 10) (1 + j)) = (sz / 10) * 10 * (100 * 1000 ^ j)) as Ev.
+      { cbn [form_value]. rewrite Z.pow_add_r by lia. change (1000 ^ 1) with 1000. ring. }
+      rewrite Ev. split; [Z.div_mod_to_equations; nia|].
+      intros v (f' & Vf & <-) Hv.
+      set (q := sz / 10) in *. assert (10 * q <= sz < 10 * q + 10) as Hq by (subst q; Z.div_mod_to_equations; lia).
+      clearbody q.
+      destruct f' as [m | x k' | a b k']; cbn [valid_form form_value] in *.
+      * destruct Hcases as [-> | [-> | [-> | [-> | [-> | ->]]]]]; cbn in *; lia.
+      * assert (k' = 1 \/ k' = 2 \/ k' = 3 \/ k' = 4 \/ k' = 5 \/ k' = 6) as Hk by lia.
+        destruct Hcases as [-> | [-> | [-> | [-> | [-> | ->]]]]];
+          destruct Hk as [-> | [-> | [-> | [-> | [-> | ->]]]]]; cbn in *; lia.
+      * assert (k' = 1 \/ k' = 2 \/ k' = 3 \/ k' = 4 \/ k' = 5 \/ k' = 6) as Hk by lia.
+        destruct Hcases as [-> | [-> | [-> | [-> | [-> | ->]]]]];
+          destruct Hk as [-> | [-> | [-> | [-> | [-> | ->]]]]]; cbn in *; lia.
+Qed.
